@@ -226,10 +226,23 @@ func (x *Exec) sprintf(st *State, c *callCtx) Term {
 		fname += "." + string(s)
 	}
 	f := x.sym.Func(fname, sorts, SStr)
+	var res Term
 	if len(parts) == 0 {
-		return Term{f, SStr}
+		res = Term{f, SStr}
+	} else {
+		res = App(SStr, f, parts...)
 	}
-	return App(SStr, f, parts...)
+	// a format with literal text besides its verbs never yields the empty string
+	if lit, ok := x.sym.LitValue(format.S); ok {
+		rest := lit
+		for _, v := range []string{"%s", "%d", "%v", "%w", "%q"} {
+			rest = strings.ReplaceAll(rest, v, "")
+		}
+		if rest != "" {
+			st.assume(Not(Eq(res, x.sym.StrLit(""))))
+		}
+	}
+	return res
 }
 
 // anyToTerm lowers the dynamic value of an interface (fmt argument) to a term.
@@ -574,5 +587,11 @@ func init() {
 			st.ghost.db.txLog = append(append([]string(nil), st.ghost.db.txLog...), "os.Remove")
 		}
 		return x.finish(st, fr, c, x.symbolicResult(st, c))
+	})
+}
+
+func init() {
+	reg("(error).Error", "err.Error(): an arbitrary string", func(x *Exec, st *State, fr *Frame, c *callCtx) bool {
+		return x.finish(st, fr, c, VScalar{x.sym.Fresh("err.Error", SStr)})
 	})
 }
